@@ -38,8 +38,20 @@ fn close(m: Matrix, r: [[f64; 3]; 3], tol: f64) {
     let mut i = 0;
     while i < 3 { let mut j = 0; while j < 3 { assert!((v[i][j] as f64 - r[i][j]).abs() <= tol); j += 1; } i += 1; }
 }
-fn decode_matrix_is_h273(mc: MC) { close(get_yuv_to_rgb_matrix(cfg(mc)).unwrap(), h273_decode(mc), 4e-7); }
-fn encode_matrix_is_h273(mc: MC) { close(get_rgb_to_yuv_matrix(cfg(mc)).unwrap(), h273_encode(mc), 6e-8); }
+// the magnitude facts used as hypotheses by the Verus error-budget lemmas (U-round) are checked here on the closed forms:
+//   decode rows: |D_i0| + |D_i1|/2 + |D_i2|/2 <= 2 and |D_ij| <= 2;   encode rows: |F_j0| + |F_j1| + |F_j2| <= 1
+fn decode_matrix_is_h273(mc: MC) {
+    let d = h273_decode(mc);
+    close(get_yuv_to_rgb_matrix(cfg(mc)).unwrap(), d, 4e-7);
+    let mut i = 0;
+    while i < 3 { assert!(d[i][0].abs() + 0.5 * d[i][1].abs() + 0.5 * d[i][2].abs() <= 2.0 + 1e-12); assert!(d[i][0].abs() <= 2.0 && d[i][1].abs() <= 2.0 && d[i][2].abs() <= 2.0); i += 1; }
+}
+fn encode_matrix_is_h273(mc: MC) {
+    let f = h273_encode(mc);
+    close(get_rgb_to_yuv_matrix(cfg(mc)).unwrap(), f, 6e-8);
+    let mut i = 0;
+    while i < 3 { assert!(f[i][0].abs() + f[i][1].abs() + f[i][2].abs() <= 1.0 + 1e-12); i += 1; }
+}
 
 // C16: neutral chroma decodes to R=G=B for EVERY luma value (f32 symbolic), spread <= 5e-7
 fn neutral_axis(mc: MC) {
